@@ -64,7 +64,10 @@ try:
         # load-sensitive tests (e.g. test_cb::test_cbcheck_determinate, test_fdepsd::test_fdepsd_absacce): re-run alone
         for t in missing[:4]:
             mod, name = t.split("::")
-            rc2, o2 = run("/venv/bin/python -m pytest -q -p no:cacheprovider --timeout=900 %s.py::%s" % (mod.replace(".", "/"), name), cwd=wt, timeout=900)
+            for _try in range(3):  # known flaky tests fail about 1 time in 8 even alone
+                rc2, o2 = run("/venv/bin/python -m pytest -q -p no:cacheprovider --timeout=900 %s.py::%s" % (mod.replace(".", "/"), name), cwd=wt, timeout=900)
+                if rc2 == 0:
+                    break
             if rc2 == 0:
                 passed.add(t)
                 out.setdefault("passed_when_rerun_alone", []).append(t)
